@@ -134,6 +134,22 @@ CLAIMED = {
          'mixed-kind comparisons (C10 decides comparisons). Ten known findings (unary sign scope, comparison/& left operand, percent forms, ...). '
          'One genuine defect fixed (5e1cf08 literal rebuild).',
     technique='regenerated grammar table + Coq kernel-exhaustive sweep lifted by a membership lemma + Coq proofs (case analysis) + vm_compute correspondence on ast trees and values', ref='6/C01'),
+ 'C06': dict(
+    text='Coq theorems about how the module text is put together, over tables regenerated from the source on every run (the class template as a '
+         'format string, the method template, the syntax trees of the four assembly functions): for EVERY methods text, titles text and sizes text '
+         'the module is the fixed template text around the three arguments, each inserted once and verbatim (a Gallina model of str.format; the '
+         'generated code is never interpreted as a format string); the assembly functions have the modelled shape; every member name is a Python '
+         'identifier for all sheet/column/row/sub-cell numbers; repr(text) is one string literal without a line break for every byte string; '
+         'the parser either builds a tree of the whole formula or rejects (any table, fuel, tokens); kernel-exhaustive: every token sequence of '
+         'length <= 4 over the operator alphabet is rejected or emitted as text Python reads as one expression. Correspondence on real xlsx '
+         'workbooks through Parser.get_translation: the Gallina lexer + parser prediction (reject) against the exception class, and an oracle on '
+         'the result: library exception, or source that compiles, loads, reports the titles, has a member per stored cell, returns the constants, '
+         'behaves the same from the written file and the class object, within a wall-clock limit.',
+    note='Partial: the translators of the individual functions are not modelled for this property (C01 models the operators, C10-C17 the runtime); '
+         'foreign exceptions and unloadable output are decided by the oracle over generated workbooks (families valid / unsupported / malformed and '
+         'truncated / references / token soups / nesting), not by a theorem; "never hangs" cannot be expressed in the model beyond the wall-clock '
+         'oracle. Known finding: parse_time_exponential_in_nesting_depth. Six genuine defects fixed (7ad1ad6 7edbc3d 614d2f8 2287500 1941174 51bf86d).',
+    technique='regenerated template/assembly tables + Coq proof (str.format model, induction over digit strings and byte strings, kernel sweep) + vm_compute correspondence + load/evaluate oracle on real xlsx', ref='6/C06'),
  'C07': dict(
     text='Unbounded Coq theorems: repr(text) is, for EVERY byte string, exactly one Python string literal denoting the text, and whatever follows '
          'it in the module is read after it (confinement); text constants and sheet titles are emitted through repr; for a cell ="<text>" with ANY '
